@@ -182,6 +182,7 @@ def optimizeStage (song : Song) (fuel passes : Nat) : Out Song :=
       | .inputError m => .inputError m
       | .foreign k => .foreign k
   | .error .missingTrack => .inputError "drum mode error: track is not defined"
+  | .error (.missingDrum _) => .inputError "drum mode error: track is not defined"
   | .error .stackListOOB => .foreign "ub:stack-list-oob"
   | .error .fuel => .foreign "hang"
 
